@@ -1,5 +1,5 @@
 (* Model/C18Run.v - case type and checker evaluated on harness-generated cases (C18) *)
-From ReqV Require Export Lib.Bytes Model.Pipeline Model.Entry.
+From ReqV Require Export Lib.Bytes Model.Pipeline Model.Entry Model.CloneMw.
 Open Scope Z_scope.
 
 (* what the harness records from the real code after one call *)
@@ -20,7 +20,8 @@ Record observation := mkObs {
 Inductive c18_case :=
 | ClassCase (status : Z) (obs_state : Z)            (* Response.ResultState() with the default checker *)
 | ProgCase (p : program) (obs : observation)
-| EntryCase (name : bytes) (pkg : bool) (p : program) (obs : observation).   (* called through the named function of the generated table *)
+| EntryCase (name : bytes) (pkg : bool) (p : program) (obs : observation)
+| CloneCase (ops : list cop) (obs : list (list nat * list nat)).   (* per client: ids of the response / request middleware one request ran *)   (* called through the named function of the generated table *)
 
 Definition opt_z_eqb (a b : option Z) : bool :=
   match a, b with
@@ -79,6 +80,8 @@ Definition c18_check (c : c18_case) : bool :=
   match c with
   | ClassCase s st => default_result_state s =? st
   | ProgCase p o => prog_check p o
+  | CloneCase ops obs =>
+      list_eqb (fun a b => list_eqb Nat.eqb (fst a) (fst b) && list_eqb Nat.eqb (snd a) (snd b)) (run_ops ops) obs
   | EntryCase name pkg p o =>
       match kind_of entry_table name pkg with
       | Some k => prog_check (mkProg k (p_cfg p) (p_attempts p)) o
